@@ -98,6 +98,15 @@ def import_spin():
     import looper
 def import_spin_print():
     import looper_print
+gate = threading.Event()
+def wait_gate():
+    gate.wait(30)
+    return 1
+def helper_loop():
+    # `helper` is put into the namespace by the instructor; it calls back into the sandbox (call('wait_gate')), so the time
+    # runs out while student code of the INNER execution is running (the harness opens the gate once the timeout is reported)
+    while True:
+        helper()
 def say(text):
     print(text)
     return len(text)
@@ -107,7 +116,7 @@ def ask():
 # the student's second files, imported by import_spin / import_spin_print (threaded imports run in a nested timeout thread)
 EXTRA_FILES = {'looper.py': 'while True:\n    pass\n',
                'looper_print.py': "n = 0\nwhile True:\n    n += 1\n    if n % 500 == 0:\n        print('tick from module')\n"}
-KINDS = ['spin', 'spin_print', 'swallow_exception', 'swallow_base', 'swallow_base_print', 'block_on_lock', 'writer', 'import_spin', 'import_spin_print', 'swallow_once', 'swallow_once_raise']
+KINDS = ['spin', 'spin_print', 'swallow_exception', 'swallow_base', 'swallow_base_print', 'block_on_lock', 'writer', 'import_spin', 'import_spin_print', 'swallow_once', 'swallow_once_raise', 'helper_loop']
 
 
 def submission():
@@ -119,23 +128,36 @@ ENTRIES = ['run', 'call', 'evaluate', 'run-real-io', 'call-in-handler']
 SCHEDULES = ['caller-first', 'student-first', 'student-during-next', 'student-never']
 FOLLOWUPS = [['run-input-default', 'run-print'], ['run-exit-threaded', 'run-print'], ['call-say', 'run-slow'], ['run-print', 'run-slow'], ['evaluate-say', 'call-ask'], ['call-ask', 'run-slow', 'call-say'], ['run-slow', 'run-print'], []]
 LIMITS = [0.1, 0.2]
-REACHES_HANDLER = {'spin', 'spin_print', 'swallow_exception', 'writer', 'import_spin', 'import_spin_print'}
+REACHES_HANDLER = {'spin', 'spin_print', 'swallow_exception', 'writer', 'import_spin', 'import_spin_print', 'helper_loop'}
 
 
 def table(tier):
     if tier == 'thorough':
         for kind, entry, sched, fu, lim in itertools.product(KINDS, ENTRIES, SCHEDULES, range(len(FOLLOWUPS)), LIMITS):
+            if kind == 'helper_loop' and sched not in ('caller-first', 'student-during-next'):
+                continue
             yield {'kind': kind, 'entry': entry, 'schedule': sched, 'followups': FOLLOWUPS[fu], 'limit': lim}
         return
     i = 0
     for kind, sched in itertools.product(KINDS, SCHEDULES):
+        if kind == 'helper_loop' and sched not in ('caller-first', 'student-during-next'):
+            continue      # (the inner execution only moves on once the caller has reported the timeout)
         for entry in ENTRIES:
             fu = FOLLOWUPS[0] if entry == 'run-real-io' and i % 3 else FOLLOWUPS[i % len(FOLLOWUPS)]
             yield {'kind': kind, 'entry': entry, 'schedule': sched, 'followups': fu, 'limit': LIMITS[i % 2]}
             i += 1
 
 
-ENUMS = {'table': table}
+def traced_table(tier):
+    """Tracing switched on (native style): the timed-out thread is gone (or waits on a lock for good, still inside its traced block);
+    the executions after it are traced like in a sandbox that never timed out."""
+    for kind in ('spin', 'block_on_lock', 'writer', 'import_spin'):
+        for sched in ('caller-first', 'student-never'):
+            for entry in ('run', 'call'):
+                yield {'kind': kind, 'entry': entry, 'schedule': sched, 'followups': ['call-say', 'run-print', 'evaluate-say'], 'limit': 0.2, 'tracer': 'native'}
+
+
+ENUMS = {'table': table, 'traced': traced_table}
 
 
 def do_followup(sb, name, sync=None):
@@ -144,6 +166,7 @@ def do_followup(sb, name, sync=None):
     before = sb.raw_output
     threaded = sb.threaded
     sb.threaded = False
+    traced_before = len(sb.trace.lines) if type(sb.trace).__name__ == 'SandboxNativeTracer' else None
     if name == 'call-say':
         r = sb.call('say', 'hello')
     elif name == 'evaluate-say':
@@ -182,11 +205,15 @@ def do_followup(sb, name, sync=None):
             linked = sb.get_context(r._actual_context_id)[-1].code
         except Exception as e:
             linked = 'get_context raised %s' % type(e).__name__
-    return {'delta': sb.raw_output[len(before):], 'value': val, 'exception': type(exc).__name__ if exc is not None else None, 'context_output': ctx_out,
-            'linked_record': linked}
+    out = {'delta': sb.raw_output[len(before):], 'value': val, 'exception': type(exc).__name__ if exc is not None else None, 'context_output': ctx_out,
+           'linked_record': linked}
+    if traced_before is not None and name in ('call-say', 'evaluate-say', 'run-print', 'run-input-default'):
+        # with tracing switched on, a later execution is traced like any other (the lines it ran, in order)
+        out['traced_lines'] = list(sb.trace.lines[traced_before:])
+    return out
 
 
-def reference_followups(names):
+def reference_followups(names, tracer=None):
     """What the same follow-ups give in a sandbox that never timed out."""
     from pedal.core.commands import contextualize_report
     from pedal.core.report import MAIN_REPORT
@@ -195,6 +222,8 @@ def reference_followups(names):
     contextualize_report(submission())
     sb = get_sandbox()
     sb.run()
+    if tracer:
+        sb.tracer_style = tracer
     out = [do_followup(sb, n) for n in names]
     MAIN_REPORT.full_clear()
     return out
@@ -212,7 +241,7 @@ def judge(case):
     kind, entry, schedule, followups, limit = case['kind'], case['entry'], case['schedule'], case['followups'], case['limit']
     base_stdout, base_sleep = sys.stdout, _time.sleep
     viol, classes = [], ['kind=' + kind, 'schedule=' + schedule, 'entry=' + entry]
-    expected = reference_followups(followups)
+    expected = reference_followups(followups, case.get('tracer'))
 
     MAIN_REPORT.full_clear()
     contextualize_report(submission())
@@ -252,6 +281,11 @@ def judge(case):
     T.set_verif_callback(callback)
     sb.threaded = True
     sb.allowed_time = limit
+    # an instructor helper that student code can call and that itself calls student code (same sandbox, same thread)
+    sb.data['helper'] = lambda: sb.call('wait_gate', threaded=False)
+    if case.get('tracer'):
+        sb.tracer_style = case['tracer']
+        classes.append('tracer=' + case['tracer'])
 
     def runtime_feedback():
         return [f for f in MAIN_REPORT.feedback if (f.category or '').lower() == 'runtime']
@@ -276,6 +310,8 @@ def judge(case):
     except BaseException as e:
         T.set_verif_callback(None)
         return Result([V('C14|escapes:%s' % type(e).__name__, '%s(%s) schedule=%s raised %r into the grader' % (entry, kind, schedule, e))], True, classes)
+    if kind == 'helper_loop':
+        sb.data['gate'].set()
     state['abandoned_threads'] = {t for t in threading.enumerate() if t is not main_thread}
     state['phase'] = 'followups'
     elapsed = _time.time() - t0 - state['harness_wait']
@@ -374,4 +410,4 @@ def on_hang(case):
 
 
 def plan(tier):
-    return [Task('enum', 'table', shards=16, isolate=True, timeout=90)]
+    return [Task('enum', 'table', shards=14, isolate=True, timeout=90), Task('enum', 'traced', shards=2, isolate=True, timeout=90)]
